@@ -6,6 +6,7 @@ package gen
 import (
 	"encoding/base64"
 	"fmt"
+	"math"
 	"os"
 	"path/filepath"
 	"strings"
@@ -539,7 +540,7 @@ func Options(t *rapid.T, s OptSpec) database.SearchOptions {
 		o.ContextBoosts = map[string]float64{}
 		for i := 0; i < n; i++ {
 			w := rapid.SampledFrom(words).Draw(t, "boost-word")
-			o.ContextBoosts[w] = rapid.SampledFrom([]float64{1, 1.3, 1.5, 2, 3}).Draw(t, "boost-factor")
+			o.ContextBoosts[w] = rapid.SampledFrom([]float64{1, 1.3, 1.5, 2, 3, 1.3, 2, 0.5, 0, -2, math.NaN(), 5e-324, 1e-300}).Draw(t, "boost-factor") // non-positive and NaN factors are ignored by the engine
 			// real boost maps also hold Makefile targets and npm script names: compound keys
 			// and case variants that share a word with another key
 			if rapid.IntRange(0, 2).Draw(t, "boost-variant") == 0 {
